@@ -139,16 +139,38 @@ def r04_2(cx):
             syms = ['sid', 'max_match_id', 'max_special_id', 'start_unanchored_id', 'start_anchored_id']
             bad = None
             cnt = 0
+            # evaluated on the predicate's path summary (any spelling: comparisons, `match` on the constant, early returns, De
+            # Morgan forms, the other predicates called as helpers)
+            from acverif.sym import summarize, cstr as _cs, teval as _te, row_consistent as _rc
+            from acverif.rl import Unsupported as _U, EvalPanic as _E
+            rows = [r for r in summarize(cx.facts, b) if r.end == 'return']
+            SID = _cs(param_at(b, 2))
             try:
                 for vals in itertools.product(range(0, 5), repeat=len(syms)):
                     env = dict(zip(syms, vals))
                     env['DEAD'] = 0
                     cnt += 1
-                    got = bool(Interp(cx.facts, b, env).run())
+
+                    def at(t, env=env):
+                        s0 = _cs(t)
+                        if s0 in (SID, SID + '.0', SID + '.0.0'):
+                            return env['sid']       # the id, or the integer inside the id newtype
+                        m0 = re.match(r'^self\.special\.(\w+)$', s0)
+                        if m0 and m0.group(1) in env:
+                            return env[m0.group(1)]
+                        m1 = re.match(r'^automaton::Automaton::(is_dead|is_match|is_special|is_start)\(self, %s\)$' % re.escape(SID), s0)
+                        if m1:
+                            return int(bool(SPEC_PRED[m1.group(1)](env)))
+                        return None
+                    sel = [r for r in rows if _rc(r, at)]
+                    if len(sel) != 1:
+                        bad = dict(env, paths=len(sel))
+                        break
+                    got = bool(_te(sel[0].ret, at))
                     if got != bool(spec(env)):
                         bad = env
                         break
-            except KeyError as e:
+            except (_U, _E, KeyError, TypeError) as e:
                 bad = 'predicate uses something other than comparisons of the id with the special ids: %s' % e
             cx.report('R04.2', b, 'equiv', bad is None, '%s agrees with the specification under all %d relative orderings of (sid, special ids, DEAD=0)' % (pred, cnt) if bad is None else
                       '%s deviates from the specification for %s' % (pred, bad))
